@@ -411,6 +411,157 @@ impl Runner {
     }
 }
 
+// ---- the race family: the chain moves between two steps of a submission -------------------------
+
+#[derive(Clone, Debug, Serialize, Deserialize, PartialEq, Eq, Hash)]
+pub struct RaceCase {
+    pub race: String,
+    pub gate: String,
+    pub mine: bool,
+}
+
+pub fn race_cases() -> Vec<RaceCase> {
+    let mut v = vec![];
+    for race in ["committed-meanwhile", "conflict-committed-meanwhile", "dep-spent-meanwhile", "header-dep-detached-meanwhile", "parent-detached-meanwhile", "parent-replaced-meanwhile", "proposal-detached-meanwhile"] {
+        for gate in ["process_tx:after-pre-check", "process_tx:before-submit-entry"] {
+            for mine in [true, false] {
+                v.push(RaceCase { race: race.into(), gate: gate.into(), mine });
+            }
+        }
+    }
+    v
+}
+
+impl Runner {
+    /// A submission is started; at the named gate (between pre-check / verification / the write
+    /// lock of submit_entry) blocks arrive and the pool finishes processing the tip change; the
+    /// submission then continues.  Afterwards the pool must agree with the new chain.
+    fn run_race(&mut self, ctx: &Ctx, case: &RaceCase, report: &mut Report) -> Result<(), String> {
+        let cons = self.world.cons.clone();
+        let window = (cons.tx_proposal_window().closest(), cons.tx_proposal_window().farthest());
+        let fclock = self.drv.as_ref().map(|(_, d)| d.clock).unwrap_or(time_for_height(0));
+        {
+            let drv = self.driver(ctx, case.mine)?;
+            if drv.clock < fclock {
+                drv.clock = fclock;
+            }
+            drv.reset()?;
+            drv.clock += 14 * BLOCK_INTERVAL_MS;
+            set_time(drv.clock);
+        }
+        let base = self.drv.as_ref().unwrap().1.clock - 13 * BLOCK_INTERVAL_MS;
+        self.forge.forget();
+        let genesis = cons.genesis_hash();
+        let g = self.world.g.clone();
+        // which transaction is submitted, what the A branch proposes / commits, what arrives at the gate
+        let provisional = self.world.txs(&genesis);
+        let t1x = simple_tx(&cons, &g[0..1], 1, 3_000_000, 90); // another spender of T1's input
+        let (a1_props, a3_txs): (Vec<usize>, Vec<usize>) = match case.race.as_str() {
+            "committed-meanwhile" => (vec![0], vec![0]),
+            "conflict-committed-meanwhile" => (vec![3], vec![3]),
+            "dep-spent-meanwhile" => (vec![6], vec![6]),
+            "parent-detached-meanwhile" | "parent-replaced-meanwhile" => (vec![0], vec![0]),
+            "proposal-detached-meanwhile" => (vec![0], vec![]),
+            _ => (vec![], vec![]),
+        };
+        let ts = |n: u64, off: u64| Some(base + n * BLOCK_INTERVAL_MS + off);
+        let a1 = self.forge.build_on(&genesis, &BlockSpec { proposals: a1_props.iter().map(|i| provisional[*i].proposal_short_id()).collect(), miner: 1, timestamp: ts(1, 0), ..Default::default() })?;
+        let txs = self.world.txs(&a1.hash());
+        let a2 = self.forge.build_on(&a1.hash(), &BlockSpec { miner: 1, timestamp: ts(2, 0), ..Default::default() })?;
+        let a3 = self.forge.build_on(&a2.hash(), &BlockSpec { txs: a3_txs.iter().map(|i| txs[*i].clone()).collect(), miner: 1, timestamp: ts(3, 0), ..Default::default() })?;
+        let mut b = vec![];
+        let mut pb = genesis.clone();
+        for n in 1..=4u64 {
+            let mut spec = BlockSpec { miner: 2, timestamp: ts(n, 1), ..Default::default() };
+            if case.race == "parent-replaced-meanwhile" {
+                if n == 1 {
+                    spec.proposals = vec![t1x.proposal_short_id()];
+                }
+                if n == 3 {
+                    spec.txs = vec![t1x.clone()];
+                }
+            }
+            let blk = self.forge.build_on(&pb, &spec)?;
+            pb = blk.hash();
+            b.push(blk);
+        }
+        // before the submission / at the gate / submitted tx
+        let (before, at_gate, submitted): (Vec<BlockView>, Vec<BlockView>, usize) = match case.race.as_str() {
+            "committed-meanwhile" => (vec![a1.clone(), a2.clone()], vec![a3.clone()], 0),
+            "conflict-committed-meanwhile" => (vec![a1.clone(), a2.clone()], vec![a3.clone()], 2),
+            "dep-spent-meanwhile" => (vec![a1.clone(), a2.clone()], vec![a3.clone()], 5),
+            "header-dep-detached-meanwhile" => (vec![a1.clone(), a2.clone(), a3.clone()], b.clone(), 4),
+            "parent-detached-meanwhile" | "parent-replaced-meanwhile" => (vec![a1.clone(), a2.clone(), a3.clone()], b.clone(), 1),
+            // T1 is proposed on A and sits in the window when it is submitted; B never proposes it
+            "proposal-detached-meanwhile" => (vec![a1.clone(), a2.clone(), a3.clone()], b.clone(), 0),
+            other => return Err(format!("unknown race {other}")),
+        };
+        let mut names: HashMap<Byte32, &'static str> = txs.iter().enumerate().map(|(i, t)| (t.hash(), TXS[i])).collect();
+        names.insert(t1x.hash(), "T1x");
+        let drv = &mut self.drv.as_mut().unwrap().1;
+        for blk in &before {
+            drv.node.process(blk).map_err(|e| format!("before: {e}"))?;
+        }
+        drv.node.wait_pool_synced()?;
+        // the submission runs on its own thread and stops at the gate
+        let (reached_tx, reached_rx) = std::sync::mpsc::channel::<()>();
+        let (go_tx, go_rx) = std::sync::mpsc::channel::<()>();
+        let wanted = case.gate.clone();
+        let fired = std::sync::Arc::new(std::sync::atomic::AtomicBool::new(false));
+        let fired2 = std::sync::Arc::clone(&fired);
+        let go_rx = std::sync::Mutex::new(go_rx);
+        ckb_tx_pool::verif::set_gate(Some(Box::new(move |point| {
+            if point == wanted && !fired2.swap(true, std::sync::atomic::Ordering::SeqCst) {
+                let _ = reached_tx.send(());
+                let _ = go_rx.lock().unwrap().recv_timeout(std::time::Duration::from_secs(30));
+            }
+        })));
+        let ctrl = drv.node.shared.tx_pool_controller().clone();
+        let tx = txs[submitted].clone();
+        let handle = std::thread::spawn(move || ctrl.submit_local_tx(tx).map_err(|e| e.to_string()));
+        let reached = reached_rx.recv_timeout(std::time::Duration::from_secs(20)).is_ok();
+        let label = serde_json::to_value(case).unwrap();
+        let mut trace = vec![format!("{} delivered, submit {} started", before.iter().map(|x| format!("#{}", x.number())).collect::<Vec<_>>().join(" "), TXS[submitted])];
+        if reached {
+            for blk in &at_gate {
+                drv.node.process(blk).map_err(|e| format!("at gate: {e}"))?;
+            }
+            drv.node.wait_pool_synced()?;
+            trace.push(format!("at {}: {} block(s) arrive, tip is now #{} and the pool has processed it", case.gate, at_gate.len(), drv.node.tip().number()));
+            let _ = go_tx.send(());
+        }
+        let verdict = handle.join().map_err(|_| "submit thread panicked".to_string())??;
+        ckb_tx_pool::verif::set_gate(None);
+        if !reached {
+            // the submission was refused before the gate (nothing to interleave): deliver anyway
+            for blk in &at_gate {
+                drv.node.process(blk).map_err(|e| format!("late: {e}"))?;
+            }
+            drv.node.wait_pool_synced()?;
+            report.count("race_gate_not_reached", 1);
+        }
+        trace.push(format!("submission answered {}", match &verdict { Ok(_) => "accepted".to_string(), Err(e) => format!("rejected ({})", e.to_string().split('(').next().unwrap_or("").trim()) }));
+        report.transitions += 2;
+        report.evaluations += 1;
+        let main = drv.node.main_chain();
+        let r = reference(&main, window);
+        let d = drv.dump()?;
+        for (kind, msg) in judge(&d, &r, &names, case.mine) {
+            report.violation(format!("race/{}/{kind}", case.race), format!("{}: {msg}", trace.join("; ")), label.clone());
+        }
+        // an accepted answer for a transaction that is not pooled and not committed is a lost tx;
+        // a pooled one is what the judge has looked at
+        let pooled = d.entries.iter().any(|e| e.tx.hash() == txs[submitted].hash());
+        report.states.insert(fp(&(case, pooled, verdict.is_ok())));
+        report.outcomes.insert(fp(&(&case.race, pooled, verdict.is_ok())));
+        if reached {
+            report.nontrivial.insert(fp(case));
+        }
+        report.traces += 1;
+        Ok(())
+    }
+}
+
 fn scenarios() -> Vec<(&'static str, Vec<usize>)> {
     vec![("chain", vec![0, 1]), ("conflict", vec![2, 3]), ("header-dep", vec![4, 0]), ("cell-dep", vec![5, 6]), ("dep-conflict", vec![5, 6, 7])]
 }
@@ -472,8 +623,8 @@ pub fn meta(tier: Tier) -> Meta {
     Meta {
         id: "C12",
         level: "model_checking",
-        rule: "history = (scenario, role assignment, submission positions, block assembler on/off) run on a real node with the production tx-pool service; blocks a1 a2 a3 | b1 b2 b3 b4 (reorg, 3 detached / 4 attached) | a4 a5 (reorg back, 4 detached / 5 attached, block-1 proposals leave the window) forged freshly per history; scenarios: parent/child chain, two conflicting spends, a header-dep on a1 (+ bystander), a cell-dep user and the dep cell's spender, the same with a second (block-only) spender of the dep cell; roles per tx and branch: nothing / proposed in block 1 / proposed and committed in block 3; after EVERY submission and block (once the pool reports the new tip) the pool's internal dump is judged against a plain replay of the main chain: no pooled tx committed on it, every input and cell dep live on it or created by a pooled tx, every header dep on it, on a reorg every tx committed only on the abandoned branch that is valid on the new chain (inputs available and not spent by another pooled tx, deps, header deps) is pooled again, and with the assembler on each entry's stage equals proposed/gap/pending as computed from the new chain's proposal window. non-trivial = a re-added detached tx or an entry outside the pending stage.",
-        assumptions: &["expiry and size-limit eviction are outside this alphabet (C11 covers their bookkeeping)", "interleavings of the reorg notification with a concurrent submission are not enumerated (no gate scheduler): each event runs to quiescence", "RBF is off in this check (a conflicting submission is refused)"],
+        rule: "history = (scenario, role assignment, submission positions, block assembler on/off) run on a real node with the production tx-pool service; blocks a1 a2 a3 | b1 b2 b3 b4 (reorg, 3 detached / 4 attached) | a4 a5 (reorg back, 4 detached / 5 attached, block-1 proposals leave the window) forged freshly per history; scenarios: parent/child chain, two conflicting spends, a header-dep on a1 (+ bystander), a cell-dep user and the dep cell's spender, the same with a second (block-only) spender of the dep cell; roles per tx and branch: nothing / proposed in block 1 / proposed and committed in block 3; after EVERY submission and block (once the pool reports the new tip) the pool's internal dump is judged against a plain replay of the main chain: no pooled tx committed on it, every input and cell dep live on it or created by a pooled tx, every header dep on it, on a reorg every tx committed only on the abandoned branch that is valid on the new chain (inputs available and not spent by another pooled tx, deps, header deps) is pooled again, and with the assembler on each entry's stage equals proposed/gap/pending as computed from the new chain's proposal window. race family: a submission is started and stopped at a gate (after pre-check / before submit_entry); meanwhile blocks arrive (the submitted tx is committed, its conflict is committed, its dep cell is spent, its header dep is detached, its parent is detached or replaced, its proposal is detached) and the pool processes the tip change; the submission continues; same oracle. non-trivial = a re-added detached tx or an entry outside the pending stage.",
+        assumptions: &["expiry and size-limit eviction are outside this alphabet (C11 covers their bookkeeping)", "interleavings of a tip change with a concurrent submission are enumerated at the two gates between the steps of a submission (race family); other thread interleavings inside the pool service are not", "RBF is off in this check (a conflicting submission is refused)"],
         bounds: json!({"first_lead_of_A": "1 and 3 blocks (2 and 4 in the header-dep scenario); history = first + (first+1) + 2 blocks", "positions": if tier.is_thorough() { json!(["never", "start", "after a1", "after a2", "end of first A phase", "just before B overtakes", "after B overtook", "end"]) } else { json!(["never", "start", "after a1", "after B overtook"]) }, "roles_per_tx": 9}),
     }
 }
@@ -489,13 +640,30 @@ pub fn run(ctx: &Ctx) -> Report {
     };
     if let Some(path) = &ctx.replay {
         let v: Value = load_replay_case(path);
-        let case: Case = serde_json::from_value(v).expect("case");
-        if let Err(e) = runner.run_case(ctx, &case, &mut report) {
-            report.machinery_errors.push(e);
+        if v.get("race").is_some() {
+            let case: RaceCase = serde_json::from_value(v).expect("race case");
+            if let Err(e) = runner.run_race(ctx, &case, &mut report) {
+                report.machinery_errors.push(e);
+            }
+        } else {
+            let case: Case = serde_json::from_value(v).expect("case");
+            if let Err(e) = runner.run_case(ctx, &case, &mut report) {
+                report.machinery_errors.push(e);
+            }
         }
         report.outcomes.insert(0);
         report.outcomes.insert(1);
         return report;
+    }
+    // the race family first (it is small)
+    for (i, rc) in race_cases().iter().enumerate() {
+        if !ctx.mine(i as u64) {
+            continue;
+        }
+        if let Err(e) = runner.run_race(ctx, rc, &mut report) {
+            report.machinery_errors.push(format!("{rc:?}: {e}"));
+            return report;
+        }
     }
     let all = cases(ctx.tier);
     report.count("cases_total", if ctx.shard == 0 { all.len() as u64 } else { 0 });
